@@ -869,6 +869,13 @@ UNITS["v_control_types"] = dict(
              ensures=[("C01.not.boolean", "`!e` is boolean, fallible exactly when e is, and keeps e's return type",
                        "r.result.m@ == set![BOOLEAN] && r.result.fall@ == self.inner.spec_type(*state).fall@ && r.result.spec_returns() == self.inner.spec_type(*state).spec_returns()")],
              safety_id="C01.not_type_info.safety"),
+        dict(id="return_type_info", file=EXPR + "return.rs", impl="impl Expression for Return", name="type_info",
+             orig_sig="fn type_info(&self, state: &TypeState) -> TypeInfo",
+             wrap=("impl Return {", "}"), sig="pub fn type_info(&self, state: &TypeState) -> (r: TypeInfo)",
+             rewrites=[dict(**{"from": "TypeInfo::new(\n            state,", "to": "TypeInfo::new(\n            state.clone(),", "count": 1, "why": "impl Into<TypeState> for &TypeState = clone"})],
+             ensures=[("C01.return.return_type_is_value_kind", "`return e` never yields a value itself and reports e's kind as its return type (the kind of the value the program then ends with)",
+                       "r.result.spec_never() && r.result.m@ == Set::<int>::empty() && r.result.spec_returns() == self.expr.spec_type(*state).m@")],
+             safety_id="C01.return_type_info.safety"),
         dict(id="not_type_info_c02", file=EXPR + "not.rs", impl="impl Expression for Not", name="type_info",
              orig_sig="fn type_info(&self, state: &TypeState) -> TypeInfo",
              wrap=("impl Not {", "}"), sig="pub fn type_info_c02(&self, state: &TypeState) -> (r: TypeInfo)",
